@@ -30,7 +30,7 @@ pub struct Case {
     pub extra: Vec<u16>,
 }
 
-pub const NUM_ROUTES: u8 = 9;
+pub const NUM_ROUTES: u8 = 11;
 
 pub fn raw_by_push_bit(b: &Bits) -> RawVector {
     let mut r = RawVector::new();
@@ -80,6 +80,40 @@ pub fn raw_by_push_int(b: &Bits, chunk: &[u8]) -> RawVector {
     r
 }
 
+/// push_bit / push_int interleaved with junk that is pushed and popped again (pop_bit, pop_int): the popped bits must not survive
+pub fn raw_by_push_pop(b: &Bits, chunk: &[u8]) -> RawVector {
+    use simple_sds::raw_vector::PopRaw;
+    let mut r = RawVector::new();
+    let mut k = 0usize;
+    for i in 0..b.len {
+        let c = if chunk.is_empty() { 3 } else { chunk[k % chunk.len()] as usize };
+        k += 1;
+        if c % 5 == 0 {
+            // junk bits, all ones, removed again one by one
+            let n = c % 7 + 1;
+            for _ in 0..n {
+                r.push_bit(true);
+            }
+            for _ in 0..n {
+                r.pop_bit();
+            }
+        } else if c % 5 == 1 {
+            let w = c % 64 + 1;
+            unsafe {
+                r.push_int(!0u64, w);
+                r.pop_int(w);
+            }
+        }
+        r.push_bit(b.get(i));
+    }
+    r
+}
+
+/// build the complement, then call complement()
+pub fn raw_by_complement(b: &Bits) -> RawVector {
+    raw_by_set_bit(&b.complement()).complement()
+}
+
 pub fn sparse_from(b: &Bits) -> SparseVector {
     let ones = b.positions();
     let mut builder = SparseBuilder::new(b.len, ones.len()).expect("SparseBuilder::new");
@@ -108,7 +142,9 @@ pub fn build_route(b: &Bits, route: u8, chunk: &[u8]) -> BitVector {
         5 => BitVector::from(sparse_from(b)),
         6 => BitVector::from(rl_from(b)),
         7 => BitVector::copy_bit_vec(&sparse_from(b)),
-        _ => BitVector::from(raw_by_clear_bit(b)),
+        8 => BitVector::from(raw_by_clear_bit(b)),
+        9 => BitVector::from(raw_by_push_pop(b, chunk)),
+        _ => BitVector::from(raw_by_complement(b)),
     }
 }
 
@@ -227,7 +263,7 @@ fn check(case: &Case, full_limit: usize) -> CaseResult {
 impl Prop for C01 {
     type Case = Case;
     const ID: &'static str = "C01";
-    const RULE: &'static str = "bit sequences by regime (lengths around 64/512/4096/2^16/bit_len^4 thresholds; uniform densities 0.001..0.999, clustered runs, 4096 packed + few spread ones, complemented) built by one of 9 public routes with supports enabled in a generated order, every query compared with a sorted-set model (all arguments 0..=len+1 and extremes when len <= limit, structural edges + sampled otherwise); plus all bit strings of length <= 12 (quick) / 16 (thorough). Non-trivial: len >= 2 and 0 < ones < len; distinct by (len, bits) digest.";
+    const RULE: &'static str = "bit sequences by regime (lengths around 64/512/4096/2^16/bit_len^4 thresholds; uniform densities 0.001..0.999, clustered runs, 4096 packed + few spread ones, complemented) built by one of 11 public routes (raw vector by push_bit / set_bit / clearing bits / push_int chunks / pushes interleaved with popped junk / complement(), bool iterators with and without size hint, conversions from the sparse and run-length vector) with supports enabled in a generated order, every query compared with a sorted-set model (all arguments 0..=len+1 and extremes when len <= limit, structural edges + sampled otherwise); plus all bit strings of length <= 12 (quick) / 16 (thorough). Non-trivial: len >= 2 and 0 < ones < len; distinct by (len, bits) digest.";
 
     fn cases(tier: Tier) -> u32 {
         tier.pick(2400, 16000)
@@ -267,7 +303,7 @@ impl Prop for C01 {
     }
 
     fn health(classes: &BTreeMap<String, u64>, _tier: Tier) -> Result<(), String> {
-        for c in ["long-superblock(ones)", "long-superblock(zeros)", "short-superblock(ones)", "short-superblock(zeros)", ">1-superblock(ones)", ">1-superblock(zeros)", "long+short(ones)", "partial-last-word", "plan:all-arguments", "plan:edges+sampled"] {
+        for c in ["long-superblock(ones)", "long-superblock(zeros)", "short-superblock(ones)", "short-superblock(zeros)", ">1-superblock(ones)", ">1-superblock(zeros)", "long+short(ones)", "long+short(zeros)", ">=2-long-superblocks(ones)", ">=2-long-superblocks(zeros)", "long-after-short(ones)", "short-after-long(ones)", "long-after-short(zeros)", "short-after-long(zeros)", "partial-last-word", "plan:all-arguments", "plan:edges+sampled"] {
             if classes.get(c).copied().unwrap_or(0) == 0 {
                 return Err(format!("no generated case reached class {}", c));
             }
@@ -279,7 +315,7 @@ impl Prop for C01 {
         vec![
             "get is asked only below len and rank_zero only up to len (their documented domains)".into(),
             "vectors above 20 000 bits are queried at structural edges (word/512-bit block/4096-one superblock/64-one block boundaries +-1), around 3000 evenly spread set bits, and at generated arguments, not at every argument".into(),
-            "plain bitvectors are limited to 140 000 bits (quick) / 2 000 000 bits (thorough)".into(),
+            "plain bitvectors are limited to 450 000 bits (quick) / 2 000 000 bits (thorough)".into(),
         ]
     }
 }
